@@ -582,6 +582,10 @@ func (m *Machine) ResolveResources(ctx context.Context, store Store) ([]string, 
 			if err != nil {
 				return nil, nil, err
 			}
+			// an account read from metadata is involved like any other account (it may be a source and must be locked)
+			if val.GetType() == machine.TypeAccount {
+				involvedAccountsMap[machine.Address(idx)] = string(val.(machine.AccountAddress))
+			}
 		case program.VariableAccountBalance:
 			acc, _ := m.getResource(res.Account)
 			address := string((*acc).(machine.AccountAddress))
